@@ -359,7 +359,7 @@ def run_driver(cases_path, out_path, timeout=900, jobs=16):
     def work(shard):
         try:
             p = subprocess.run([DRIVER], input=b"\n".join(shard) + b"\n", stdout=subprocess.PIPE,
-                               stderr=subprocess.PIPE, timeout=timeout)
+                               stderr=subprocess.PIPE, timeout=timeout, preexec_fn=_big_stack)
             if p.returncode != 0:
                 return None, p.stderr.decode("utf-8", "replace")
             res = p.stdout.split(b"\n")
@@ -385,8 +385,41 @@ def run_driver(cases_path, out_path, timeout=900, jobs=16):
     return True, ""
 
 
-def run_driver_lines(lines, timeout=900):
-    """Feeds case lines to the model driver; returns {id: result string}."""
+def _big_stack():
+    """The extracted list functions are not tail recursive: give the driver an unlimited stack."""
+    import resource
+    try:
+        resource.setrlimit(resource.RLIMIT_STACK, (resource.RLIM_INFINITY, resource.RLIM_INFINITY))
+    except (ValueError, OSError):
+        pass
+
+
+def run_driver_lines(lines, timeout=900, jobs=16):
+    """Feeds case lines to the model driver (sharded over several processes); returns {id: result string}."""
+    import concurrent.futures
+    jobs = max(1, min(jobs, len(lines) // 40 + 1))
+    shards = [lines[i::jobs] for i in range(jobs)]
+
+    def work(shard):
+        data = ("\n".join(shard) + "\n").encode()
+        p = subprocess.run([DRIVER], input=data, stdout=subprocess.PIPE, stderr=subprocess.PIPE, timeout=timeout,
+                           preexec_fn=_big_stack)
+        if p.returncode != 0:
+            raise RuntimeError("model driver failed: " + p.stderr.decode("utf-8", "replace")[-500:])
+        return p.stdout.decode()
+
+    with concurrent.futures.ThreadPoolExecutor(jobs) as ex:
+        outs = list(ex.map(work, shards))
+    res = {}
+    for out in outs:
+        for l in out.split("\n"):
+            if l.strip():
+                i, _, rest = l.partition(" ")
+                res[i] = rest
+    return res
+
+
+def _unused_run_driver_lines(lines, timeout=900):
     data = ("\n".join(lines) + "\n").encode()
     p = subprocess.run([DRIVER], input=data, stdout=subprocess.PIPE, stderr=subprocess.PIPE, timeout=timeout)
     if p.returncode != 0:
